@@ -212,6 +212,8 @@ class Program:
             try:
                 from .inline import inline_new_helpers, known_names
                 from .canon import unrename, canonicalise, unrename_locals
+                from .canon import push_down_new_mixins
+                self.normalisation["mixins_pushed_down"] = push_down_new_mixins(self, known_names())
                 from .canon import methodise
                 self.normalisation["methodised"] = methodise(self)
                 self.normalisation["unrenamed"] = unrename(self, known_names())
